@@ -22,7 +22,7 @@ func init() {
 		Rule: "byte strings fed to dns.DecodeMessage in a child process with a 3 s watchdog and an address-space limit: grammar-generated messages with every name style (plain, compressed, pointer-only, self pointer, forward pointer, " +
 			"pointer cycle through labels, pointer chains up to 40 deep, truncated label, > 255 octets, 64..191-byte label lengths) in owner names and inside RDATA of every record type, lying section counts, RDLENGTH off by +-k, " +
 			"messages up to 64 KiB, byte mutations, random bytes, and hand-written pointer-loop witnesses; decode results (canonical message text tagged by Go dynamic type) compared with the Lean model; " +
-			"stream owned: well-formed messages whose records (of every type) are owned by the names the resolver asks about; every message that decodes is then served by a local DoH server to the real Resolver.Resolve (no panic, returns). distinct = (generator, name styles used, record types, outcome class).",
+			"stream owned: well-formed messages whose records (of every type) are owned by the names the resolver asks about; every message that decodes is then served (with a content-length, or chunked without one) by a local DoH server to the real Resolver.Resolve (no panic, returns). distinct = (generator, name styles used, record types, outcome class).",
 		Gen: genC12,
 	})
 }
@@ -264,13 +264,25 @@ func genC12(env *core.Env, emit func(core.Case)) {
 	// resolver-driven part: a DoH server that serves a chosen body
 	var mu sync.Mutex
 	var body []byte
+	framing := 0 // 0: content-length; 1: chunked (no length the client can see); 2: chunked in two pieces
 	srv := httptest.NewUnstartedServer(http.HandlerFunc(func(w http.ResponseWriter, req *http.Request) {
 		mu.Lock()
 		b := body
+		fr := framing
 		mu.Unlock()
 		w.Header().Set("content-type", "application/dns-message")
-		w.Header().Set("content-length", strconv.Itoa(len(b)))
-		w.Write(b)
+		switch fr {
+		case 0:
+			w.Header().Set("content-length", strconv.Itoa(len(b)))
+			w.Write(b)
+		case 1:
+			w.(http.Flusher).Flush()
+			w.Write(b)
+		default:
+			w.Write(b[:len(b)/2])
+			w.(http.Flusher).Flush()
+			w.Write(b[len(b)/2:])
+		}
 	}))
 	srv.Config.SetKeepAlivesEnabled(false)
 	srv.Start()
@@ -302,7 +314,9 @@ func genC12(env *core.Env, emit func(core.Case)) {
 			nres++
 			mu.Lock()
 			body = it.b
+			framing = []int{0, 0, 1, 2}[nres%4] // half of the responses come without a content-length
 			mu.Unlock()
+			env.Count(fmt.Sprintf("doh-framing/%d", []int{0, 0, 1, 2}[nres%4]))
 			w := ""
 			func() {
 				defer func() {
